@@ -25,7 +25,7 @@ type c05Case struct {
 	ID      int      `json:"id"`
 	Kind    string   `json:"kind"`   // prim | decode | samples
 	Mode    string   `json:"mode"`   // B: io.NewDecoder(bytes)   R: from the scripted reader
-	Ctor    string   `json:"ctor"`   // R only: "new" NewDecoderFromReader(r, cap) | "reset" NewDecoder(make([]byte,cap)).ResetReader(r) | "fmt" Formatter.UnmarshalFromReader
+	Ctor    string   `json:"ctor"`   // R only: "new" NewDecoderFromReader(r, cap) | "reset" io.VerifNewDecoderFromReader(r, cap) (verif hook: a read buffer of cap bytes, below the public minimum of 256) | "fmt" Formatter.UnmarshalFromReader
 	Cap     int      `json:"cap"`    // buffer size asked for
 	Chunks  []string `json:"chunks"` // hex; "" is a Read returning (0, nil)
 	Data    string   `json:"data"`   // alternative to chunks: the whole stream in hex ...
@@ -148,7 +148,7 @@ func newDecoder(c *c05Case) (*io.Decoder, *scriptedReader, error) {
 	r := &scriptedReader{chunks: chunks, eofLast: c.EOFLast}
 	switch c.Ctor {
 	case "reset":
-		return io.NewDecoder(make([]byte, c.Cap)).ResetReader(r), r, nil
+		return io.VerifNewDecoderFromReader(r, c.Cap), r, nil
 	default:
 		return io.NewDecoderFromReader(r, c.Cap), r, nil
 	}
